@@ -55,7 +55,8 @@ func main() {
 		splitN := fs.Int("splitn", 0, "")
 		splitI := fs.Int("spliti", 0, "")
 		splitD := fs.Int("splitdepth", 0, "")
-		var params, redirs multi
+		var params, redirs, withs multi
+		fs.Var(&withs, "with", "additional harness package")
 		fs.Var(&params, "param", "k=v")
 		fs.Var(&redirs, "redirect", "function=harnessFunction")
 		fs.Parse(os.Args[2:])
@@ -67,6 +68,7 @@ func main() {
 			v, _ := strconv.ParseInt(kv[1], 10, 64)
 			spec.Params[kv[0]] = v
 		}
+		spec.WithPkgs = withs
 		for _, r := range redirs {
 			kv := strings.SplitN(r, "=", 2)
 			if spec.Redirects == nil {
